@@ -1136,6 +1136,17 @@ func (v *FnVC) enterBlock(b *ssa.BasicBlock) {
 		}
 	}
 	v.st = st
+	// redundant but cheap for the solver: the allocation pointer only grows, so at a merge it is at least what it
+	// was at the end of the immediate dominator (saves a case split over the incoming edges)
+	if d := b.Idom(); d != nil && len(ins) > 1 {
+		if di := v.blocks[d]; di != nil && di.done {
+			if dn, ok := di.out["nextref"]; ok {
+				if mn, ok2 := st["nextref"]; ok2 && mn != dn {
+					v.assume(fmt.Sprintf("(>= %s %s)", mn, dn))
+				}
+			}
+		}
+	}
 	// phis
 	for _, insn := range b.Instrs {
 		phi, ok := insn.(*ssa.Phi)
